@@ -19,9 +19,11 @@ import GMModel.Vec3
   `+= -= /=` in the package act on fresh temporaries).  The harness checks this on every run with
   byte snapshots of the arrays it handed in.
 
-  Only `gro` and `top` cells are ever overwritten by the modelled operations; `res`, `mtop` and `mol`
-  cells are immutable once allocated (`Residue.remove_atom`, `AtomTop.connect` are not in the
-  modelled operation set).
+  Only `gro` and `top` cells are ever overwritten by the operations of `GMModel.HeapOps`; `res`,
+  `mtop` and `mol` cells are immutable there.  `GMModel.HeapX` extends the operation set with
+  `Residue.remove_atom` (the one operation that rewrites a `res` cell: `Residue(atoms)` keeps the
+  very list it is given and `remove_atom` mutates it), `+`, named attribute access and `==`;
+  `AtomTop.connect` stays outside.
 -/
 
 namespace GMHeap
@@ -30,6 +32,7 @@ namespace GMHeap
     ill-formed heap — never a Python behaviour, the harness treats it as a protocol error) -/
 inductive PyErr where
   | typeError | valueError | indexError | ioError | attributeError | keyError | internal
+  | notImplementedError | stopIteration
 deriving DecidableEq, Repr, Inhabited
 
 def PyErr.toString : PyErr → String
@@ -40,6 +43,8 @@ def PyErr.toString : PyErr → String
   | .attributeError => "AttributeError"
   | .keyError => "KeyError"
   | .internal => "Internal"
+  | .notImplementedError => "NotImplementedError"
+  | .stopIteration => "StopIteration"
 
 structure AtomGroC (α : Type) where
   resid : Int
